@@ -1453,6 +1453,14 @@ class System:
     def processModule(self, mod: _ModuleT) -> None:
         assert mod.state is ProcessingState.UNPROCESSED
         assert mod in self.unprocessed_modules
+        package = mod.parent
+        if isinstance(package, Module) and package in self.unprocessed_modules:
+            # What a module inherits from its package (__docformat__) must be known
+            # before its docstrings are parsed, also when it's processed on demand.
+            self.processModule(package)
+            if mod.state is not ProcessingState.UNPROCESSED:
+                # it has been imported by the package
+                return
         mod.state = ProcessingState.PROCESSING
         self.unprocessed_modules.remove(mod)
         if mod.source_path is None:
